@@ -110,9 +110,12 @@ func c20message(kind string) (*entities.Message, []c20fieldWant) {
 			els := []entities.InfoElementWithValue{
 				entities.NewUnsigned16InfoElement(c20ie("sourceTransportPort", 0), uint16(1000+r)),
 				entities.NewStringInfoElement(c20ie("interfaceName", 0), fmt.Sprintf("if-%d-%d", c20seq, r)),
+				// the same element a second time in one record (a template may list an element twice)
+				entities.NewStringInfoElement(c20ie("interfaceName", 0), fmt.Sprintf("again-%d-%d", c20seq, r)),
 			}
 			set.AddRecordV2(els, 257)
-			want = append(want, c20fieldWant{"sourceTransportPort", fmt.Sprint(1000 + r)}, c20fieldWant{"interfaceName", fmt.Sprintf("if-%d-%d", c20seq, r)})
+			want = append(want, c20fieldWant{"sourceTransportPort", fmt.Sprint(1000 + r)}, c20fieldWant{"interfaceName", fmt.Sprintf("if-%d-%d", c20seq, r)},
+				c20fieldWant{"interfaceName", fmt.Sprintf("again-%d-%d", c20seq, r)})
 		}
 	}
 	m.AddSet(set)
@@ -148,8 +151,16 @@ func (s *c20sys) snapshot() []string {
 	return append([]string{}, flowRecords...)
 }
 
-func (s *c20sys) apply(opi int) *c20viol {
+func (s *c20sys) apply(opi int) (v *c20viol) {
 	op := s.ops[opi]
+	defer func() {
+		// a handler or the store that panics takes the whole collector down
+		if r := recover(); r != nil {
+			mutex.TryLock() // whatever state the lock was left in, make the next Unlock legal
+			mutex.Unlock()
+			v = &c20viol{"panic", fmt.Sprintf("%s: panic: %v", op.name, r)}
+		}
+	}()
 	switch op.kind {
 	case "arrive-template", "arrive-every", "arrive-two":
 		msg, want := c20message(op.kind)
